@@ -2289,9 +2289,12 @@ dbus_message_iter_get_signature (DBusMessageIter *iter)
   if (!_dbus_string_append_len (&retstr,
 				_dbus_string_get_const_data (sig) + start,
 				len))
-    return NULL;
+    {
+      _dbus_string_free (&retstr);
+      return NULL;
+    }
   if (!_dbus_string_steal_data (&retstr, &ret))
-    return NULL;
+    ret = NULL;
   _dbus_string_free (&retstr);
   return ret;
 }
